@@ -24,7 +24,7 @@ ASSUMPTIONS = [
 ]
 
 TICKS = (0, 10, 50, 51, 99, 100, 130)
-MAPS = ((), ((50, 60000),), ((50, 60000), (100, 333333)), ((10, 1000), (51, 10**9), (99, 90500), (130, 120000)), ((1, 240000), (2, 30000)), ((10, 10**10),))  # the last map: 0.06 us per tick - neighbouring ticks share a microsecond
+MAPS = ((), ((50, 60000),), ((50, 60000), (100, 333333)), ((10, 1000), (51, 10**9), (99, 90500), (130, 120000)), ((1, 240000), (2, 30000)), ((10, 10**10),), ((50, 50), (51, 7), (52, 120000)))  # the map before the last: 0.06 us per tick; the last: one- and two-digit tempo values (0.05 and 0.007 BPM): 0.06 us per tick - neighbouring ticks share a microsecond
 
 PROBE_TMPL = '''
 ARGS = {args!r}      # bounds: ["tick", n], ["us", n] or ["none", 0] (bound omitted)
